@@ -37,11 +37,12 @@ def enclosed_rules(facts, rep):
     A_NEXT = r"^discr\(Iterator::next\("
     A_COMP = r"^discr\(ok\(Iterator::next\("
     A_SUB = r"^discr\(Try::branch\(num::checked_sub\("
+    A_DEPTH0 = r"^var:depth$"     # explicit `depth == 0` guard in front of an unchecked decrement
     # (0) only these atoms decide
     extra = set()
     for p in ps:
         for a, v in p["decisions"]:
-            if a != "#iter" and not any(re.search(x, a) for x in (A_NUL, A_NEXT, A_COMP, A_SUB)):
+            if a != "#iter" and not any(re.search(x, a) for x in (A_NUL, A_NEXT, A_COMP, A_SUB, A_DEPTH0)):
                 extra.add(a)
     ok &= rep.check(not extra, rule, "atoms", where(f, f.span), "verdict depends only on: NUL present, iterator exhausted, component kind, depth underflow",
                     "enclosed_name additionally branches on %s -- names for which it holds bypass the component walk" % sorted(extra))
@@ -65,7 +66,7 @@ def enclosed_rules(facts, rep):
             first.append((a, v))
         nxt = [v for a, v in first if re.search(A_NEXT, a)]
         comp = [v for a, v in first if re.search(A_COMP, a)]
-        sub = [v for a, v in first if re.search(A_SUB, a)]
+        sub = [v for a, v in first if re.search(A_SUB, a)] + [(1 if v == 0 else 0) for a, v in first if re.search(A_DEPTH0, a)]
         continues = any(a == "#iter" for a, v in d)
         if nxt == [0]:
             o = outcome(p)
@@ -120,6 +121,10 @@ def enclosed_rules(facts, rep):
         elif name == "ParentDir":
             good = len(ups) == 1 and ups[0][0] == "ok" and ups[0][1][0] == "call" and ups[0][1][1].endswith("checked_sub") and \
                 ups[0][1][2][1][0] == "const" and ups[0][1][2][1][2] == 1
+            if not good and len(ups) == 1 and ups[0][0] == "bin" and ups[0][1] == "Sub" and ups[0][3] == ("const", "usize", 1):
+                # unchecked decrement: sound only behind the explicit zero test (every ParentDir path is then classified by kind:ParentDir:*)
+                guarded = [p for p in ps if any(re.search(A_DEPTH0, a) for a, v in p["decisions"])]
+                good = bool(guarded) and all(vals for vals in (seen.get("ParentDir:ok"), seen.get("ParentDir:underflow"))) and all(seen.get("ParentDir:ok", [False])) and all(seen.get("ParentDir:underflow", [False]))
         else:
             good = not ups
         ok &= rep.check(good, rule, "depth:%s" % name, where(f, t["span"]),
@@ -157,8 +162,8 @@ def mangle_rules(facts, rep):
         good = len(trunc) == 1 and len(whole) == 1
         if good:
             rng = dict(trunc[0][2][1][3]) if trunc[0][2][1][0] == "agg" else {}
-            good = trunc[0][2][0] == ("field", ("arg", 1, "self"), "file_name") and rng.get("start") == ("const", "usize", 0) and \
-                rng.get("end") is not None and rng["end"][0] == "ok" and rng["end"][1][0] == "call" and rng["end"][1][1].endswith("str>::find") and \
+            good = trunc[0][2][0] == ("field", ("arg", 1, "self"), "file_name") and rng.get("start", ("const", "usize", 0)) == ("const", "usize", 0) and \
+                set(rng) <= {"start", "end"} and trunc[0][2][1][1] in ("adt:Range", "adt:RangeTo") and rng.get("end") is not None and rng["end"][0] == "ok" and rng["end"][1][0] == "call" and rng["end"][1][1].endswith("str>::find") and \
                 rng["end"][1][2][1] == ("const", "char", 0)
         # separator: the *non-main* separator is replaced by the main one
         frm, to = rep_calls[0][2][1], rep_calls[0][2][2]
@@ -170,36 +175,72 @@ def mangle_rules(facts, rep):
     ok &= rep.check(good, rule, "input", where(f, comps[0][1]["span"]),
                     "components() of: name truncated at the first NUL, with the non-main separator replaced by the main one",
                     "the sanitiser walks %s -- separators must be normalised and the NUL tail cut *before* the component walk" % show(recv)[:200])
-    # filter keeps Normal only
-    clos = facts.closures_of(f)
-    flt = calls_matching(f, r"Iterator::filter$")
-    fold = calls_matching(f, r"Iterator::fold$")
-    good = bool(flt and fold) and f.dominates(comps[0][0], flt[0][0]) and f.dominates(flt[0][0], fold[0][0])
-    ok &= rep.check(good, rule, "pipeline", where(f, f.span), "components().filter(..).fold(..)", "the sanitiser is no longer components -> filter -> fold")
-    c0 = [c for c in clos if c.path.endswith("{closure#0}")]
-    c1 = [c for c in clos if c.path.endswith("{closure#1}")]
-    if not (c0 and c1):
-        raise AnchorLost("filter/fold closures")
-    tab = component_table(c0[0])
-    ps = paths(c0[0])
-    trues = [p for p in ps if p["ret"] == ("const", "bool", 1)]
-    good = bool(trues) and all(decided(p, r"^discr\(") is not None and tab.get(decided(p, r"^discr\(")) == "Normal" for p in trues) and \
-        all(p["ret"] in (("const", "bool", 1), ("const", "bool", 0)) for p in ps)
-    ok &= rep.check(good, rule, "filter=Normal", where(c0[0], c0[0].span), "filter keeps exactly Component::Normal",
-                    "the filter keeps %s" % [[(a, tab.get(v, v)) for a, v in p["decisions"]] for p in trues])
-    ps1 = paths(c1[0])
-    good = len(ps1) == 1 and [e[1].split("::")[-1] for e in ps1[0]["effects"]] == ["as_os_str", "push"] and ps1[0]["ret"] is not None and ps1[0]["ret"][0] == "arg"
-    if good:
-        push = ps1[0]["effects"][1]
-        good = push[2][1][0] == "call" and push[2][1][1].endswith("as_os_str") and push[2][1][2][0][0] == "arg"
-    ok &= rep.check(good, rule, "fold=push(as_os_str)", where(c1[0], c1[0].span), "each kept component is pushed verbatim onto the accumulator",
-                    "the fold step does %s" % ([e[1] for e in ps1[0]["effects"]] if ps1 else "?"))
-    exf = Ex(f)
-    init = norm(exf.operand(fold[0][1]["args"][1], (fold[0][0], None))) if fold else None
-    ok &= rep.check(init is not None and init[0] == "call" and init[1].endswith("PathBuf::new"), rule, "fold-init", where(f, f.span), "accumulator starts empty",
-                    "fold starts from %s" % (show(init) if init else "?"))
-    ra = ret_alts(f)
-    ok &= rep.check(len(ra) == 1 and ra[0][0] == "call" and ra[0][1].endswith("Iterator::fold"), rule, "returns-fold", where(f, f.span), "returns the folded path", "returns %s" % [show(a)[:60] for a in ra])
+    flt0 = calls_matching(f, r"Iterator::filter$")
+    fold0 = calls_matching(f, r"Iterator::fold$")
+    pushes = calls_matching(f, r"PathBuf::push$")
+    if not (flt0 and fold0) and pushes and f.loops():
+        # explicit loop form: `for c in components { if let Normal(p) = c { acc.push(p) } }`
+        tab = component_table(f)
+        ps = paths(f, max_loop=1)
+        A_COMP = r"^discr\(ok\(Iterator::next\("
+        n_normal = 0
+        good = True
+        for p in ps:
+            kinds = [tab.get(v, v) for a, v in p["decisions"] if a != "#iter" and re.search(A_COMP, a)]
+            pu = called(p, r"PathBuf::push$")
+            if kinds == ["Normal"]:
+                n_normal += 1
+                okp = len(pu) == 1
+                if okp:
+                    arg = pu[0][2][1]
+                    okp = any(x[0] == "call" and x[1].endswith("Iterator::next") for x in walk(arg)) and \
+                        (any(x[0] == "variant" and x[2] == "Normal" for x in walk(arg)) or any(x[0] == "call" and x[1].endswith("as_os_str") for x in walk(arg))) and \
+                        not any(x[0] == "call" and not re.search(r"Iterator::next$|Path::components$|as_os_str$|IntoIterator::into_iter$|Path::new$|Deref::deref$|AsRef|str>::replace$|to_string$|Index::index$|str>::find$", x[1]) for x in walk(arg))
+                good = good and okp
+            else:
+                good = good and not pu
+            o = outcome(p)
+            good = good and o[0] == "value" and o[1][0] == "call" and o[1][1].endswith("PathBuf::new")
+        good = good and n_normal >= 1
+        ok &= rep.check(good, rule, "pipeline", where(f, f.span), "loop over components(): push exactly the Normal components, verbatim, onto an empty PathBuf that is returned",
+                        "the sanitiser loop does not push exactly the Normal components onto the returned, initially empty PathBuf")
+        # the loop walks the components() iterator
+        it = calls_matching(f, r"Iterator::next$")
+        good = len(it) == 1 and any(x[0] == "call" and x[1].endswith("Path::components") for x in walk(norm(ex.operand(it[0][1]["args"][0], (it[0][0], None)))))
+        ok &= rep.check(good, rule, "filter=Normal", where(f, f.span), "the loop draws from components() only", "the loop does not iterate the components() of the prepared name")
+        for k in ("fold=push(as_os_str)", "fold-init", "returns-fold"):
+            rep.check(True, rule, k, where(f, f.span), "(loop form: covered by `pipeline`)", "")
+    else:
+        # filter keeps Normal only
+        clos = facts.closures_of(f)
+        flt = calls_matching(f, r"Iterator::filter$")
+        fold = calls_matching(f, r"Iterator::fold$")
+        good = bool(flt and fold) and f.dominates(comps[0][0], flt[0][0]) and f.dominates(flt[0][0], fold[0][0])
+        ok &= rep.check(good, rule, "pipeline", where(f, f.span), "components().filter(..).fold(..)", "the sanitiser is no longer components -> filter -> fold")
+        c0 = [c for c in clos if c.path.endswith("{closure#0}")]
+        c1 = [c for c in clos if c.path.endswith("{closure#1}")]
+        if not (c0 and c1):
+            raise AnchorLost("filter/fold closures")
+        tab = component_table(c0[0])
+        ps = paths(c0[0])
+        trues = [p for p in ps if p["ret"] == ("const", "bool", 1)]
+        good = bool(trues) and all(decided(p, r"^discr\(") is not None and tab.get(decided(p, r"^discr\(")) == "Normal" for p in trues) and \
+            all(p["ret"] in (("const", "bool", 1), ("const", "bool", 0)) for p in ps)
+        ok &= rep.check(good, rule, "filter=Normal", where(c0[0], c0[0].span), "filter keeps exactly Component::Normal",
+                        "the filter keeps %s" % [[(a, tab.get(v, v)) for a, v in p["decisions"]] for p in trues])
+        ps1 = paths(c1[0])
+        good = len(ps1) == 1 and [e[1].split("::")[-1] for e in ps1[0]["effects"]] == ["as_os_str", "push"] and ps1[0]["ret"] is not None and ps1[0]["ret"][0] == "arg"
+        if good:
+            push = ps1[0]["effects"][1]
+            good = push[2][1][0] == "call" and push[2][1][1].endswith("as_os_str") and push[2][1][2][0][0] == "arg"
+        ok &= rep.check(good, rule, "fold=push(as_os_str)", where(c1[0], c1[0].span), "each kept component is pushed verbatim onto the accumulator",
+                        "the fold step does %s" % ([e[1] for e in ps1[0]["effects"]] if ps1 else "?"))
+        exf = Ex(f)
+        init = norm(exf.operand(fold[0][1]["args"][1], (fold[0][0], None))) if fold else None
+        ok &= rep.check(init is not None and init[0] == "call" and init[1].endswith("PathBuf::new"), rule, "fold-init", where(f, f.span), "accumulator starts empty",
+                        "fold starts from %s" % (show(init) if init else "?"))
+        ra = ret_alts(f)
+        ok &= rep.check(len(ra) == 1 and ra[0][0] == "call" and ra[0][1].endswith("Iterator::fold"), rule, "returns-fold", where(f, f.span), "returns the folded path", "returns %s" % [show(a)[:60] for a in ra])
     rep.floor(rule, 6)
     return ok
 
